@@ -465,90 +465,8 @@ theorem idsLenCheck_true {h : H5} {p : Path} {r : Int} (hc : idsLenCheck h p (.i
     simp only [Option.some.injEq, aEqNat, beq_iff_eq] at hc
     exact ⟨n, rfl, hc.symm⟩
 
-/-- **HDF5, the part that is enforced.**  A file reported valid has the eight required attributes,
-    the four groups and eight datasets the validator lists, a `shape` attribute that is a pair of
-    integers equal to the lengths of the two `ids` datasets, and (2.1 files that have the four
-    metadata groups) per-ID metadata stored as a group.
-    NOT established (the full statement `validateH5 = valid → structuralHB` is false, see the
-    `_witness` theorems): `mdGroupsPresent`, `sampleMdIsGroup`, `indicesInRange`, `elementsTyped`, `idsNonEmpty`,
-    `idsDistinct`. -/
-theorem valid_h5_structural_partial (dateOk : String → Bool) (h : H5)
-    (hv : validateH5 dateOk h = .valid) :
-    attrsB h = true ∧ coreGroupsB h = true ∧ datasetsB h = true ∧ shapeHB h = true ∧ mdHB h = true := by
-  unfold validateH5 at hv
-  split at hv
-  · cases hv
-  · rename_i hvb
-    rw [verdictOf_valid] at hv
-    simp only [checksH, List.mem_append, List.mem_cons, List.not_mem_nil, or_false, List.mem_map,
-      coreGroups, requiredDatasets] at hv
-    have a1 := attrCheck_true (hv _ (Or.inl (Or.inl (Or.inl (Or.inl rfl)))))
-    have a2 := attrCheck_true (hv _ (Or.inl (Or.inl (Or.inl (Or.inr (Or.inl rfl))))))
-    have a3 := attrCheck_true (hv _ (Or.inl (Or.inl (Or.inl (Or.inr (Or.inr (Or.inl rfl)))))))
-    have a4 := attrCheck_true (hv _ (Or.inl (Or.inl (Or.inl (Or.inr (Or.inr (Or.inr (Or.inl rfl))))))))
-    have a5 := attrCheck_true (hv _ (Or.inl (Or.inl (Or.inl (Or.inr (Or.inr (Or.inr (Or.inr (Or.inl rfl)))))))))
-    have a6 := attrCheck_true (hv _ (Or.inl (Or.inl (Or.inl (Or.inr (Or.inr (Or.inr (Or.inr (Or.inr (Or.inl rfl))))))))))
-    have a7 := attrCheck_true (hv _ (Or.inl (Or.inl (Or.inl (Or.inr (Or.inr (Or.inr (Or.inr (Or.inr (Or.inr (Or.inl rfl)))))))))))
-    have a8 := attrCheck_true (hv _ (Or.inl (Or.inl (Or.inl (Or.inr (Or.inr (Or.inr (Or.inr (Or.inr (Or.inr (Or.inr rfl)))))))))))
-    obtain ⟨sv, hsv, hsh⟩ := a4
-    obtain ⟨r, c, rfl⟩ := hShape_true hsh
-    have hg : ∀ p, (p = ["observation"] ∨ p = ["sample"] ∨ p = ["observation", "matrix"] ∨
-        p = ["sample", "matrix"]) → h.has p = true := by
-      intro p hp
-      have := hv (some (h.has p)) (Or.inl (Or.inl (Or.inr ⟨p, hp, rfl⟩)))
-      simpa using this
-    have hd : ∀ p, (p = ["observation", "ids"] ∨ p = ["observation", "matrix", "data"] ∨
-        p = ["observation", "matrix", "indices"] ∨ p = ["observation", "matrix", "indptr"] ∨
-        p = ["sample", "ids"] ∨ p = ["sample", "matrix", "data"] ∨ p = ["sample", "matrix", "indices"] ∨
-        p = ["sample", "matrix", "indptr"]) → h.has p = true := by
-      intro p hp
-      have := hv (some (h.has p)) (Or.inl (Or.inr ⟨p, hp, rfl⟩))
-      simpa using this
-    have hsb : ∀ x ∈ shapeBlock h, x = some true := fun x hx => hv x (Or.inr hx)
-    simp only [shapeBlock, hsv, unpackA, List.mem_cons, List.not_mem_nil, or_false, forall_eq_or_imp,
-      forall_eq] at hsb
-    obtain ⟨n, hn, hnr⟩ := idsLenCheck_true hsb.1
-    obtain ⟨m, hm, hmc⟩ := idsLenCheck_true hsb.2
-    refine ⟨?_, ?_, ?_, ?_, ?_⟩
-    · obtain ⟨_, h1, _⟩ := a1; obtain ⟨_, h2, _⟩ := a2; obtain ⟨_, h3, _⟩ := a3
-      obtain ⟨_, h5, _⟩ := a5; obtain ⟨_, h6, _⟩ := a6; obtain ⟨_, h7, _⟩ := a7; obtain ⟨_, h8, _⟩ := a8
-      simp [attrsB, requiredAttrs, h1, h2, h3, hsv, h5, h6, h7, h8]
-    · simp [coreGroupsB, coreGroups, hg]
-    · simp [datasetsB, requiredDatasets, hd]
-    · simp [shapeHB, shapeOfH, hsv, hn, hm, hnr, hmc]
-    · -- metadata stored as a dataset makes `.items()` raise, i.e. the version block is `none`
-      unfold mdHB
-      cases h21 : version21 h with
-      | false => simp
-      | true =>
-        cases hmg : mdGroupsB h with
-        | false => simp
-        | true =>
-          simp only [Bool.and_self, Bool.not_true, Bool.false_or]
-          have hfv : h.attr "format-version" = some (.ints [2, 1]) := by
-            simpa [version21] using h21
-          have hmg' : mdGroups.all h.has = true := hmg
-          simp only [versionBlock, hfv, mdV210, hmg', Bool.not_true] at hvb
-          simp only [hn, hm] at hvb
-          have key : ∀ p k, mdLens h p k ≠ none → isGroupOrAbsent h p = true := by
-            intro p k hk
-            unfold mdLens at hk
-            unfold isGroupOrAbsent
-            cases hg : h.get p with
-            | none => rfl
-            | some nd =>
-              cases nd with
-              | group => rfl
-              | ds l d => rw [hg] at hk; exact absurd rfl hk
-          apply key _ n
-          intro hnone
-          rw [hnone] at hvb
-          simp at hvb
-
-/-! ### HDF5: what the library writes is valid -/
-
-theorem mdLens_fold_some (h : H5) (n : Nat) : ∀ (cs : List (Path × Node)) (acc : Option Bool),
-    acc ≠ none → (∀ c ∈ cs, (h.lenOf c.1).isSome = true) →
+/-- the metadata pass over the children of a group: what a `some true` result means -/
+theorem mdLens_fold_true (h : H5) (n : Nat) : ∀ (cs : List (Path × Node)) (acc : Option Bool),
     cs.foldl (fun acc c =>
       match acc with
       | none => none
@@ -556,30 +474,170 @@ theorem mdLens_fold_some (h : H5) (n : Nat) : ∀ (cs : List (Path × Node)) (ac
       | some true =>
         match h.lenOf c.1 with
         | none => none
-        | some k => some (k == n)) acc ≠ none
-  | [], acc, ha, _ => by simpa using ha
-  | c :: cs, acc, ha, hc => by
-    simp only [List.foldl_cons]
-    apply mdLens_fold_some h n cs
-    · cases acc with
-      | none => exact absurd rfl ha
-      | some b =>
-        cases b with
-        | false => simp
-        | true =>
-          have := hc c (by simp)
-          cases hl : h.lenOf c.1 with
-          | none => rw [hl] at this; cases this
-          | some k => simp
-    · intro c' hc'; exact hc c' (List.mem_cons_of_mem _ hc')
+        | some k => some (k == n)) acc = some true →
+    acc = some true ∧ ∀ c ∈ cs, h.lenOf c.1 = some n
+  | [], acc, hf => by simpa using hf
+  | c :: cs, acc, hf => by
+    simp only [List.foldl_cons] at hf
+    obtain ⟨h1, h2⟩ := mdLens_fold_true h n cs _ hf
+    cases acc with
+    | none => simp at h1
+    | some b =>
+      cases b with
+      | false => simp at h1
+      | true =>
+        simp only at h1
+        cases hl : h.lenOf c.1 with
+        | none => rw [hl] at h1; simp at h1
+        | some k =>
+          rw [hl] at h1
+          simp only [Option.some.injEq, beq_iff_eq] at h1
+          refine ⟨rfl, ?_⟩
+          intro c' hc'
+          rcases List.mem_cons.1 hc' with rfl | hm
+          · rw [hl, h1]
+          · exact h2 c' hm
 
-theorem mdLens_some {h : H5} {p : Path} {n : Nat} (hg : h.get p = some .group)
-    (hc : (h.children p).all (fun c => (h.lenOf c.1).isSome) = true) : mdLens h p n ≠ none := by
+theorem mdLens_fold_of_all (h : H5) (n : Nat) : ∀ (cs : List (Path × Node)),
+    (∀ c ∈ cs, h.lenOf c.1 = some n) →
+    cs.foldl (fun acc c =>
+      match acc with
+      | none => none
+      | some false => some false
+      | some true =>
+        match h.lenOf c.1 with
+        | none => none
+        | some k => some (k == n)) (some true) = some true
+  | [], _ => rfl
+  | c :: cs, hc => by
+    simp only [List.foldl_cons, hc c (by simp), beq_self_eq_true]
+    exact mdLens_fold_of_all h n cs (fun c' hc' => hc c' (List.mem_cons_of_mem _ hc'))
+
+theorem mdLens_true {h : H5} {p : Path} {n : Nat} (hm : mdLens h p n = some true) :
+    h.get p = some .group ∧ ∀ c ∈ h.children p, h.lenOf c.1 = some n := by
+  unfold mdLens at hm
+  cases hg : h.get p with
+  | none => rw [hg] at hm; cases hm
+  | some nd =>
+    cases nd with
+    | ds l d => rw [hg] at hm; cases hm
+    | group =>
+      rw [hg] at hm
+      exact ⟨rfl, (mdLens_fold_true h n _ _ hm).2⟩
+
+theorem versionBlock_true {h : H5} (hv : versionBlock h = some true) (hp : (h.attr "format-version").isSome = true) :
+    version21 h = true ∧ mdGroups.all h.has = true ∧
+    ∃ n m, h.lenOf ["observation", "ids"] = some n ∧ h.lenOf ["sample", "ids"] = some m ∧
+      mdLens h ["observation", "metadata"] n = some true ∧ mdLens h ["sample", "metadata"] m = some true := by
+  unfold versionBlock at hv
+  cases hf : h.attr "format-version" with
+  | none => rw [hf] at hp; cases hp
+  | some v =>
+    rw [hf] at hv
+    cases v with
+    | ints l =>
+      simp only at hv
+      split at hv
+      · rename_i hl
+        have hl' : l = [2, 1] := by simpa using hl
+        subst hl'
+        unfold mdV210 at hv
+        split at hv
+        · cases hv
+        · rename_i hg
+          have hg' : mdGroups.all h.has = true := by simpa using hg
+          cases ho : h.lenOf ["observation", "ids"] with
+          | none => rw [ho] at hv; simp at hv
+          | some n =>
+            cases hs : h.lenOf ["sample", "ids"] with
+            | none => rw [ho, hs] at hv; simp at hv
+            | some m =>
+              rw [ho, hs] at hv
+              simp only at hv
+              cases h1 : mdLens h ["observation", "metadata"] n with
+              | none => rw [h1] at hv; cases hv
+              | some b =>
+                rw [h1] at hv
+                cases b with
+                | false => cases hv
+                | true =>
+                  exact ⟨by simp [version21, hf], hg', n, m, rfl, rfl, h1, hv⟩
+      · cases hv
+    | str s => cases hv
+    | reals q => cases hv
+    | int i => cases hv
+    | real q => cases hv
+    | other => cases hv
+
+/-- **HDF5, the part that is enforced.**  A file reported valid has the eight required attributes,
+    the eight groups and eight datasets of the 2.1 specification, a `shape` attribute that is a pair
+    of integers equal to the lengths of the two `ids` datasets, format version 2.1, per-ID metadata
+    stored as groups whose every category has one entry per ID.
+    NOT established (the full statement `validateH5 = valid → structuralHB` is false, see the
+    `_witness` theorems): `indicesInRange`, `elementsTyped`, `idsNonEmpty`, `idsDistinct`. -/
+theorem valid_h5_structural_partial (dateOk : String → Bool) (h : H5)
+    (hv : validateH5 dateOk h = .valid) :
+    attrsB h = true ∧ (coreGroupsB h = true ∧ mdGroupsB h = true) ∧ datasetsB h = true ∧
+    shapeHB h = true ∧ version21 h = true ∧ mdKindB h = true ∧ mdLensB h = true := by
+  unfold validateH5 at hv
+  rw [verdictOf_valid] at hv
+  simp only [checksH, List.mem_append, List.mem_cons, List.not_mem_nil, or_false, List.mem_map,
+    coreGroups, requiredDatasets] at hv
+  have a1 := attrCheck_true (hv _ (Or.inl (Or.inl (Or.inl (Or.inl (Or.inl rfl))))))
+  have a2 := attrCheck_true (hv _ (Or.inl (Or.inl (Or.inl (Or.inl (Or.inr (Or.inl rfl)))))))
+  have a3 := attrCheck_true (hv _ (Or.inl (Or.inl (Or.inl (Or.inl (Or.inr (Or.inr (Or.inl rfl))))))))
+  have a4 := attrCheck_true (hv _ (Or.inl (Or.inl (Or.inl (Or.inl (Or.inr (Or.inr (Or.inr (Or.inl rfl)))))))))
+  have a5 := attrCheck_true (hv _ (Or.inl (Or.inl (Or.inl (Or.inl (Or.inr (Or.inr (Or.inr (Or.inr (Or.inl rfl))))))))))
+  have a6 := attrCheck_true (hv _ (Or.inl (Or.inl (Or.inl (Or.inl (Or.inr (Or.inr (Or.inr (Or.inr (Or.inr (Or.inl rfl)))))))))))
+  have a7 := attrCheck_true (hv _ (Or.inl (Or.inl (Or.inl (Or.inl (Or.inr (Or.inr (Or.inr (Or.inr (Or.inr (Or.inr (Or.inl rfl))))))))))))
+  have a8 := attrCheck_true (hv _ (Or.inl (Or.inl (Or.inl (Or.inl (Or.inr (Or.inr (Or.inr (Or.inr (Or.inr (Or.inr (Or.inr rfl))))))))))))
+  obtain ⟨sv, hsv, hsh⟩ := a4
+  obtain ⟨r, c, rfl⟩ := hShape_true hsh
+  have hg : ∀ p, (p = ["observation"] ∨ p = ["sample"] ∨ p = ["observation", "matrix"] ∨
+      p = ["sample", "matrix"]) → h.has p = true := by
+    intro p hp
+    have := hv (some (h.has p)) (Or.inl (Or.inl (Or.inl (Or.inr ⟨p, hp, rfl⟩))))
+    simpa using this
+  have hd : ∀ p, (p = ["observation", "ids"] ∨ p = ["observation", "matrix", "data"] ∨
+      p = ["observation", "matrix", "indices"] ∨ p = ["observation", "matrix", "indptr"] ∨
+      p = ["sample", "ids"] ∨ p = ["sample", "matrix", "data"] ∨ p = ["sample", "matrix", "indices"] ∨
+      p = ["sample", "matrix", "indptr"]) → h.has p = true := by
+    intro p hp
+    have := hv (some (h.has p)) (Or.inl (Or.inl (Or.inr ⟨p, hp, rfl⟩)))
+    simpa using this
+  have hsb : ∀ x ∈ shapeBlock h, x = some true := fun x hx => hv x (Or.inl (Or.inr hx))
+  simp only [shapeBlock, hsv, unpackA, List.mem_cons, List.not_mem_nil, or_false, forall_eq_or_imp,
+    forall_eq] at hsb
+  obtain ⟨n, hn, hnr⟩ := idsLenCheck_true hsb.1
+  obtain ⟨m, hm, hmc⟩ := idsLenCheck_true hsb.2
+  obtain ⟨_, h2, _⟩ := a2
+  obtain ⟨h21, hmg, n', m', hn', hm', hl1, hl2⟩ :=
+    versionBlock_true (hv (versionBlock h) (Or.inr rfl)) (by simp [h2])
+  rw [hn] at hn'; rw [hm] at hm'
+  cases hn'; cases hm'
+  obtain ⟨g1, c1⟩ := mdLens_true hl1
+  obtain ⟨g2, c2⟩ := mdLens_true hl2
+  refine ⟨?_, ⟨?_, hmg⟩, ?_, ?_, h21, ?_, ?_⟩
+  · obtain ⟨_, h1, _⟩ := a1; obtain ⟨_, h3, _⟩ := a3
+    obtain ⟨_, h5, _⟩ := a5; obtain ⟨_, h6, _⟩ := a6; obtain ⟨_, h7, _⟩ := a7; obtain ⟨_, h8, _⟩ := a8
+    simp [attrsB, requiredAttrs, h1, h2, h3, hsv, h5, h6, h7, h8]
+  · simp [coreGroupsB, coreGroups, hg]
+  · simp [datasetsB, requiredDatasets, hd]
+  · simp [shapeHB, shapeOfH, hsv, hn, hm, hnr, hmc]
+  · simp [mdKindB, g1, g2]
+  · simp only [mdLensB, hn, hm, Bool.and_eq_true, List.all_eq_true, beq_iff_eq]
+    exact ⟨c1, c2⟩
+
+/-! ### HDF5: what the library writes is valid -/
+
+theorem mdLens_of_all {h : H5} {p : Path} {n : Nat} (hg : h.get p = some .group)
+    (hc : (h.children p).all (fun c => h.lenOf c.1 == some n) = true) : mdLens h p n = some true := by
   unfold mdLens
   rw [hg]
-  apply mdLens_fold_some
-  · simp
-  · rw [List.all_eq_true] at hc; exact hc
+  apply mdLens_fold_of_all
+  intro c hcm
+  rw [List.all_eq_true] at hc
+  simpa using hc c hcm
 
 /-- **Every tree with the writer's shape invariants (`writerTreeB`; the harness checks that each file
     `to_hdf5` really wrote satisfies it) is reported valid.** -/
@@ -628,26 +686,16 @@ theorem written_h5_valid (dateOk : String → Bool) (h : H5) (hw : writerTreeB d
     | [r, c], w11 =>
       simp only [Bool.and_eq_true, beq_iff_eq] at w11
       obtain ⟨⟨⟨⟨⟨e1, e2⟩, g1⟩, g2⟩, c1⟩, c2⟩ := w11
-      have hvb : (versionBlock h).isNone = false := by
-        have h1 := mdLens_some (n := n) g1 c1
-        have h2 := mdLens_some (n := m) g2 c2
-        simp only [versionBlock, hfv, mdV210, w9, hlo, hls]
-        cases hm1 : mdLens h ["observation", "metadata"] n with
-        | none => exact absurd hm1 h1
-        | some b =>
-          cases b with
-          | false => simp
-          | true =>
-            cases hm2 : mdLens h ["sample", "metadata"] m with
-            | none => exact absurd hm2 h2
-            | some b2 => simp
+      have hvb : versionBlock h = some true := by
+        have h1 := mdLens_of_all (n := n) g1 c1
+        have h2 := mdLens_of_all (n := m) g2 c2
+        simp [versionBlock, hfv, mdV210, w9, hlo, hls, h1, h2]
       unfold validateH5
-      simp only [hvb, Bool.false_eq_true, if_false]
       rw [verdictOf_valid]
       intro x hx
       simp only [checksH, List.mem_append, List.mem_cons, List.not_mem_nil, or_false, List.mem_map] at hx
       rw [List.all_eq_true] at w8 w10
-      rcases hx with ((hx | ⟨p, hp, rfl⟩) | ⟨p, hp, rfl⟩) | hx
+      rcases hx with (((hx | ⟨p, hp, rfl⟩) | ⟨p, hp, rfl⟩) | hx) | rfl
       · rcases hx with rfl | rfl | rfl | rfl | rfl | rfl | rfl | rfl
         · simp [attrCheck, hurl, hUrl, w1]
         · simp [attrCheck, hfv, hVersion, versionSet]
@@ -663,6 +711,7 @@ theorem written_h5_valid (dateOk : String → Bool) (h : H5) (hw : writerTreeB d
         rcases hx with rfl | rfl
         · simp [idsLenCheck, hlo, aEqNat, e1]
         · simp [idsLenCheck, hls, aEqNat, e2]
+      · exact hvb
   | str s => simp at w11
   | int i => simp at w11
   | real q => simp at w11
@@ -744,15 +793,15 @@ theorem model_holds_h5_partial (dateOk : String → Bool) (h : H5) (isBase : Boo
   have c2 : (checkedH h || validateH5 dateOk h != .valid) = true := by
     cases hv : validateH5 dateOk h with
     | valid =>
-      obtain ⟨h1, h2, h3, h4, h5⟩ := valid_h5_structural_partial dateOk h hv
-      simp [checkedH, checkedConjunctsH, h1, h2, h3, h4, h5]
+      obtain ⟨h1, ⟨h2, h2'⟩, h3, h4, h5, h6, h7⟩ := valid_h5_structural_partial dateOk h hv
+      simp [checkedH, checkedConjunctsH, h1, h2, h2', h3, h4, h5, h6, h7]
     | invalid => simp
     | crash => simp
   have c3 : (!(corruptH h) || validateH5 dateOk h != .valid) = true := by
     cases hv : validateH5 dateOk h with
     | valid =>
-      obtain ⟨h1, h2, h3, h4, h5⟩ := valid_h5_structural_partial dateOk h hv
-      simp [corruptH, structuralHB, checkedH, checkedConjunctsH, h1, h2, h3, h4, h5, hu]
+      obtain ⟨h1, ⟨h2, h2'⟩, h3, h4, h5, h6, h7⟩ := valid_h5_structural_partial dateOk h hv
+      simp [corruptH, structuralHB, checkedH, checkedConjunctsH, h1, h2, h2', h3, h4, h5, h6, h7, hu]
     | invalid => simp
     | crash => simp
   simp only [holdsH5, modelObsH, Codec.allV, List.foldl_cons, List.foldl_nil]
@@ -818,17 +867,14 @@ theorem h5_dup_id_witness :
     validateH5 okDate (applyH (.dupId .sample 0 1) wH) = .valid ∧
     idsDistinctHB (applyH (.dupId .sample 0 1) wH) = false := by decide
 
-theorem h5_missing_md_group_witness :
-    validateH5 okDate (applyH (.deleteNode ["observation", "metadata"]) wH) = .valid ∧
-    mdGroupsB (applyH (.deleteNode ["observation", "metadata"]) wH) = false := by decide
-
-/-- a wrong-length observation category stops the metadata pass before the sample axis is looked at -/
-theorem h5_sample_md_not_group_witness :
-    validateH5 okDate (applyH (.groupToDataset ["sample", "metadata"])
-      (updNode wH ["observation", "metadata", "taxonomy"] (fun _ => .ds (some 5) (.other 5)))) = .valid ∧
-    sampleMdHB (applyH (.groupToDataset ["sample", "metadata"])
-      (updNode wH ["observation", "metadata", "taxonomy"] (fun _ => .ds (some 5) (.other 5)))) = false := by
+/-- repaired (dd41daf0): a missing metadata group, a category of the wrong length, metadata stored
+    as a dataset and a version mismatch are refused -/
+example : validateH5 okDate (applyH (.deleteNode ["observation", "metadata"]) wH) = .invalid := by decide
+example : validateH5 okDate (applyH (.deleteNode ["sample", "group-metadata"]) wH) = .invalid := by decide
+example : validateH5 okDate (applyH (.resizeDataset ["observation", "metadata", "taxonomy"] 5) wH) = .invalid := by
   decide
+example : validateH5 okDate (applyH (.groupToDataset ["sample", "metadata"]) wH) = .crash := by decide
+example : validateH5 okDate (applyH (.setAttr "format-version" (.ints [2, 0])) wH) = .invalid := by decide
 
 /-- the full HDF5 statement is false: validity does not imply the structural facts -/
 theorem valid_h5_structural_witness :
